@@ -858,7 +858,9 @@ impl DtlsInner {
                         (msg, raw_msg)
                     };
 
-                    ctx.recv_message_seq += 1;
+                    // After a HelloVerifyRequest the counter is synchronised to whatever the peer sends
+                    // (up to 65535), so the increment must not be a checked add.
+                    ctx.recv_message_seq = ctx.recv_message_seq.wrapping_add(1);
                     #[cfg(rustrtc_verif)]
                     self.vhs(&processing_msg, "acc", ctx);
 
